@@ -6,10 +6,26 @@ from oracles import roundtrip_o as R
 from props._util import rng_for, run_cases
 
 LEVEL = "other"
-DEDUCTIVE = []
+DEDUCTIVE = [
+    # the real functions (string obligations: cvc5 is asked right after a short z3 attempt)
+    {"module": "rnapolis.parser_v2", "sidecar": "contracts.parser_v2_c",
+     "targets": ["_format_pdb_atom_line", "_format_pdb_atom_line@signed_charge", "_format_pdb_ter_line", "parse_pdb_atoms@decode", "lemma:decoded_v2_snoc"],
+     "opts": {"z3_probe_ms": 400, "cvc5_probe_s": 6}},
+    # string lemmas: layout arithmetic, field-by-field inverse, composition write -> read of one line
+    {"module": "rnapolis.parser_v2", "sidecar": "contracts.parser_v2_c",
+     "targets": ["lemma:layout80", "lemma:layout_ter", "lemma:strip_digit_sign", "lemma:strip_clean", "lemma:digit_sign_clean", "lemma:signed_digit_value", "lemma:strip_digit_then_sign",
+                 "lemma:inv_record", "lemma:inv_serial", "lemma:inv_name", "lemma:inv_ljust1", "lemma:inv_rjust3", "lemma:inv_rjust2",
+                 "lemma:inv_resseq", "lemma:int_of_str", "lemma:roundtrip_line"]},
+]
 TRUSTED = ["pandas (DataFrame construction, dtype coercion)", "mmcif IoAdapterPy reader/writer as used by the library (its quoting is part of what is exercised, not assumed)",
            "gen/emit.py + gen/atomtables_c09.py emitters and oracles/roundtrip_o.py column slicing (written from the PDB 3.3 / mmCIF descriptions, not from the library)",
-           "CPython 3.12 float formatting"]
+           "CPython 3.12 float formatting",
+           # assumed externals of contracts/parser_v2_c.py (deductive part)
+           "format(x, '8.3f') / format(x, '6.2f') (f-string specs of _format_pdb_atom_line): uninterpreted functions py_fmt_8_3f / py_fmt_6_2f of the value; ASSUMED: the text has >= 8 (6) characters, exactly 8 (6) when -999.9995 < x < 9999.9995 (-99.995 < x < 999.995), more when x lies strictly beyond those bounds (external builtins.format)",
+           "str.strip(): uninterpreted py_strip (external str.strip); its meaning enters only through the definitional lemma strip_definition (see ASSUMPTIONS)",
+           "str.splitlines(): returns some list of strings (external str.splitlines; nothing assumed about how the text is cut - the decode contract is stated per line of that list)",
+           "float(str): pyvc's uninterpreted py_float / py_float_ok; int(str): pyvc ext_int_of_str (ASCII grammar, value str.to_int on digit strings, '-' negates); pandas.to_numeric on the decoded number texts is taken to be int()/float() of the text",
+           "z3 / cvc5 (strings, integers <-> strings, regular expressions)"]
 ASSUMPTIONS = [
     "formal charge is compared as a signed integer (PDB text '2+' = mmCIF integer 2); on paths that pass through PDB an explicit mmCIF charge 0 and an absent charge are not distinguished (PDB has one blank form for both); mmCIF->mmCIF distinguishes them",
     "a blank PDB chain column is the empty chain identifier; such tables can only start from PDB text (paths PDB->PDB and PDB->mmCIF->PDB)",
@@ -18,8 +34,29 @@ ASSUMPTIONS = [
     "a 'chain' for the TER rule is a maximal run of consecutive atom records with one chain identifier inside one model",
     "justification of the atom name inside columns 13-16 and of the residue name inside 18-20 is not judged, only that the field holds the name",
     "the starting table must itself hold the emitted values (otherwise identity would be vacuous); a mismatch there is reported with tag parse-pdb / parse-cif",
+    # deductive part (contracts/parser_v2_c.py)
+    "DEDUCTIVE quantifier 'within PDB limits' (spec fits_pdb): record name ATOM/HETATM, serial 0..99999, name 1-4 characters, altLoc / chainID / iCode 0-1 character, resName 1-3 characters, resSeq -999..9999, x/y/z strictly between -999.9995 and 9999.9995, occupancy / B strictly between -99.995 and 999.995, element 0-2 characters, charge '' or digit followed by '+'/'-'; for the read-back lemma additionally: text fields do not start or end with whitespace (spec clean_fields - such blanks are the format's own padding)",
+    "modelling decision: the dict handed to _format_pdb_atom_line has exactly the keys write_pdb builds (record AtomData, .get(key, default) never falls back to the default); the dict literal of parse_pdb_atoms is the record PdbRecord",
+    "definitional lemma strip_definition (NOT proved, it defines the uninterpreted py_strip): for a text of at most 8 characters strip() is the part from the first to the last non-whitespace character ('' if none), whitespace = the 29 characters with str.isspace() in the running CPython",
+    "assumed-external lemma float_rejects_digit_sign: float('<digit><sign>') raises ValueError (so the formatter keeps a PDB charge text such as '2+' as it is)",
+    "assumed-external lemma float_of_signed_digit (variant _format_pdb_atom_line@signed_charge: the charge handed over as a signed integer text such as '2' / '-1', the mmCIF form): float of an optionally negated single digit is defined and equals the integer it spells",
+    "assumed-external lemmas fmt83_roundtrip / fmt62_roundtrip: float(strip(format(x, '8.3f'))) is defined and within 0.0005 of x (0.005 for '6.2f') when x fits the field - 'parse(format(x)) is within half a unit of the last place'",
+    "real numbers stand for floats (no nan / inf, no rounding inside the engine): int(float) is truncation of a real",
 ]
-EXPLANATION = ("bounded only: generated atom tables within PDB limits are emitted as PDB and mmCIF text by independent emitters, read by parse_pdb_atoms / "
+EXPLANATION = ("DEDUCTIVE (string level, real code of parser_v2.py re-read on every run): "
+               "(1) _format_pdb_atom_line under contract: for atom data within PDB limits the result has exactly 80 columns and every field sits at its PDB 3.3 columns - "
+               "1-6 record name, 7-11 serial right-justified, 13-16 atom name (the code's alignment rule: a name of < 4 characters starting with a letter begins in column 14, every other name in column 13), "
+               "17 altLoc, 18-20 resName right-justified, 22 chainID, 23-26 resSeq right-justified, 27 iCode, 31-38/39-46/47-54 x/y/z as format(.., '8.3f'), 55-60 / 61-66 occupancy / B as format(.., '6.2f'), "
+               "77-78 element right-justified, 79-80 charge, blanks in 12, 21, 28-30, 67-76 (clauses LAYOUT; proof: each field's width where it is computed, lemma layout80 for the column arithmetic). "
+               "(1b) the same function under the variant contract @signed_charge: a charge given as signed integer text ('2', '-1', '0') appears in columns 79-80 as magnitude digit then sign ('2+', '1-'), blank for 0, all other clauses as in (1). "
+               "(2) _format_pdb_ter_line under contract: 80 columns, 1-6 'TER   ', 7-11 serial, 18-20 resName, 22 chainID, 23-26 resSeq, 27 iCode, blanks elsewhere. "
+               "(3) parse_pdb_atoms@decode, a PREFIX contract on the real function up to (not including) the pandas DataFrame construction: the `records` list holds exactly one record per ATOM/HETATM line, in file order, "
+               "every field being its PDB 3.3 column range with surrounding whitespace removed (optional fields None when blank), model = serial of the last preceding MODEL record with a readable serial, else 1. "
+               "(4) lemmas inv_* (one per field), int_of_str and their composition roundtrip_line: a line that satisfies the LAYOUT clauses for atom data a (= postcondition of 1), decoded as in (3), gives back record type, serial, "
+               "atom name, altLoc, resName, chain, resSeq, iCode, element, charge exactly and x/y/z to 0.0005, occupancy / B to 0.005 (numbers through int()/float() of the decoded text; float formatting/parsing assumed). "
+               "NOT deductive (bounded below): the pandas row loops of write_pdb / write_cif incl. the MODEL/ENDMDL/TER state machine, the DataFrame construction and pandas.to_numeric / categorical conversion at the end of parse_pdb_atoms, "
+               "everything mmCIF (parse_cif_atoms, write_cif, the mmcif library), fit_to_pdb. "
+               "BOUNDED: generated atom tables within PDB limits are emitted as PDB and mmCIF text by independent emitters, read by parse_pdb_atoms / "
                "parse_cif_atoms, then sent through write_pdb / write_cif and read back along the four paths; every listed field of every row is compared with the "
                "table that was written; every PDB text produced by write_pdb is sliced by our own PDB 3.3 column table. Corpus files go through the same paths.")
 
